@@ -191,6 +191,11 @@ pub fn derive_cfg(job: &Job) -> SimCfg {
         f == "stats" || (f == "paths" && r.chance(1, 2))
     };
     let focus = job.params.get("focus").and_then(|v| v.as_str()).unwrap_or(mode);
+    if !matches!(job.prop.as_str(), "C07" | "C09" | "C10") {
+        // colliding file-dictionary names are a recorded finding of C07/C09; keep them out of
+        // the sessions of the other properties
+        gen_cfg.adversarial_paths = false;
+    }
     if job.prop == "C07" {
         // C07 is about words, not about moving dictionaries: paths are chosen once per session
         gen_cfg.use_paths = false;
@@ -209,6 +214,18 @@ pub fn derive_cfg(job: &Job) -> SimCfg {
             gen_cfg.weights.add_file = 10;
             gen_cfg.weights.restart = 3;
             gen_cfg.weights.code_action = 8;
+        }
+        "ignore" => {
+            gen_cfg.weights.ignore = 16;
+            gen_cfg.weights.code_action = 20;
+            gen_cfg.weights.change = 24;
+            gen_cfg.weights.add_user = 5;
+            gen_cfg.weights.add_file = 5;
+            gen_cfg.weights.config = 3;
+            gen_cfg.weights.close = 1;
+            gen_cfg.weights.restart = 0;
+            gen_cfg.weights.delete = 0;
+            gen_cfg.messages = r.range(12, 30);
         }
         "position" => {
             gen_cfg.position_probe = true;
